@@ -417,13 +417,16 @@ class Differ:
                     lhs_parent=lhs, lhs_iteration=idx,
                     rhs_parent=rhs, rhs_iteration=idx,
                     parentref=idx)
-            elif not lele == rele:
+            else:
                 # Deliberately not `!=`:  ruamel.yaml's CommentedMap defines
                 # `==` without regard for key order yet inherits an order-
                 # sensitive `!=`, so two Hashes can be both == and !=.
+                diff_action = (DiffActions.SAME
+                               if lele == rele
+                               else DiffActions.CHANGE)
                 self._diffs.append(
                     DiffEntry(
-                        DiffActions.CHANGE, next_path, lele, rele,
+                        diff_action, next_path, lele, rele,
                         lhs_parent=lhs, lhs_iteration=idx,
                         rhs_parent=rhs, rhs_iteration=idx,
                         parentref=idx))
